@@ -210,17 +210,26 @@ def rule_root1(A: Analysis, rep):
     fi = A.fn(TI + "validate_all_loaded_tasks")
     dt = fi.nested.get("do_traversal")
     loops = [l for l in fi.node.body if isinstance(l, ast.For)]
-    ok = len(loops) == 1 and norm(loops[0].iter) in ("self._loaded_tasks.keys()", "self._loaded_tasks", "list(self._loaded_tasks.keys())")
+    ok = len(loops) == 1 and norm(loops[0].iter) in ("self._loaded_tasks.keys()", "self._loaded_tasks", "list(self._loaded_tasks.keys())", "list(self._loaded_tasks)")
     det = "outer loop not over all loaded tasks"
     cand = None
     if ok:
         l = loops[0]
         t = norm(l.target)
-        body = [norm(s) for s in l.body]
-        sets = [s for s in l.body if isinstance(s, ast.Assign) and isinstance(s.targets[0], ast.Subscript) and norm(s.targets[0].slice) == t and norm(s.value) == "0"]
-        cand = norm(sets[0].targets[0].value) if sets else None
-        ok = cand is not None and body[0].startswith("if %s in " % t) and body[0].endswith("continue") and "do_traversal(%s)" % t in body
-        det = "outer loop body %s" % body
+        g = A.cfg(fi, "plain")
+        hdr = [n for n in g.nodes if n.kind == "for" and n.ast is l][0]
+        be = [x for (x, lb) in hdr.succ if lb == "T"][0]
+        sets = [n for n in g.nodes if n.kind == "stmt" and isinstance(n.ast, ast.Assign) and isinstance(n.ast.targets[0], ast.Subscript)
+                and norm(n.ast.targets[0].slice) == t and norm(n.ast.value) == "0" and id(n.ast) in {id(x) for x in ast.walk(l)}]
+        trav = [n for n in g.nodes if n.kind == "stmt" and norm(n.ast) == "do_traversal(%s)" % t]
+        cand = norm(sets[0].ast.targets[0].value) if sets else None
+        ok = len(sets) == 1 and len(trav) == 1
+        if ok:
+            g1 = A.path_guards(g, be, sets[0], fi)
+            g2 = A.path_guards(g, be, trav[0], fi)
+            ok = len(g1) == 1 and len(g1[0]) == 1 and g1 == g2 and list(g1[0])[0][0].startswith("in(%s," % t) and list(g1[0])[0][1] is False and \
+                g.all_paths_pass(be, trav[0], sets, skip_labels=skip)
+            det = "candidate/traversal guards %s / %s" % ([fmt_conj(c) for c in g1], [fmt_conj(c) for c in g2])
     rep.check(ok, "ROOT1", "every unvisited loaded task becomes a candidate and is traversed", fi.node, "", det)
     ok = False
     if dt is not None and cand:
